@@ -324,6 +324,15 @@ def check_encoding(sim):
             sim.fail("encoding", idx, "stored node %s does not decode: %r" % (n, e)); continue
         if encode_node(sim.fmt, ks, vs, links) != b:
             sim.fail("encoding", idx, "stored node %s is not the canonical encoding of its contents" % n)
+        # element bodies are encoding/json output: compact, and <, >, & inside strings written as \u003c, \u003e, \u0026
+        for body in list(ks) + list(vs):
+            try:
+                txt = body.decode("ascii"); want = json.dumps(json.loads(txt), separators=(",", ":"))
+            except Exception:
+                continue
+            want = want.replace("<", "\\u003c").replace(">", "\\u003e").replace("&", "\\u0026")
+            if want != txt and want.replace("\\u003c", "<").replace("\\u003e", ">").replace("\\u0026", "&") == txt:
+                sim.fail("encoding", idx, "stored node %s holds an element %r that is not in encoding/json's form (%r)" % (n, txt[:40], want[:40]))
 
 def check_shape(sim):
     """C09: shape invariants of every persisted version, decoded from the recorded store"""
